@@ -11,6 +11,8 @@ import (
 	"google.golang.org/protobuf/encoding/protowire"
 	"google.golang.org/protobuf/proto"
 	"google.golang.org/protobuf/reflect/protoreflect"
+
+	"verif/internal/vschema"
 )
 
 const (
@@ -42,6 +44,9 @@ type Case struct {
 	Declared   uint64 `json:"declared,omitempty"`
 	Tail       []byte `json:"tail,omitempty"` // short body following the prefix
 	Frag       int    `json:"frag,omitempty"` // ws: frames per message (0/1 = single frame)
+	// Msg selects the request message type: "" = vf.Chunk, "req" = vf.Req
+	// (methods EchoR / CSR; payloads with many small repeated elements).
+	Msg string `json:"msg,omitempty"`
 	// EOFWithData: the in-process HTTP body reader returns its last bytes
 	// together with io.EOF (as net/http's HTTP/1 Content-Length body does).
 	EOFWithData bool `json:"eof_with_data,omitempty"`
@@ -228,9 +233,20 @@ func reqMsg(codec string, n int, id string, p padder) ([]byte, bool) {
 	return nil, false
 }
 
-// decodeReq parses an encoded request with the reference decoders.
+// decodeReq parses an encoded vf.Chunk with the reference decoders.
 func decodeReq(codec string, enc []byte) (proto.Message, error) {
-	m := newChunk()
+	return decodeInto(newChunk(), codec, enc)
+}
+
+// decodeMsg parses an encoded request message of the case's message type.
+func decodeMsg(c *Case, enc []byte) (proto.Message, error) {
+	if c.Msg == "req" {
+		return decodeInto(vschema.NewMsg(vschema.Msg("vf.Req")), c.Codec, enc)
+	}
+	return decodeInto(newChunk(), c.Codec, enc)
+}
+
+func decodeInto(m proto.Message, codec string, enc []byte) (proto.Message, error) {
 	switch codec {
 	case "json":
 		if len(enc) == 0 {
@@ -299,6 +315,78 @@ func replyEnc(codec string, wireBytes []byte) ([]byte, bool) {
 			return nil, false
 		}
 		return []byte(out), true
+	}
+	return nil, false
+}
+
+// prefixValid builds a protobuf encoding of a vf.Req larger than a limit
+// whose prefix of exactly cut bytes is itself a valid encoding of a
+// *different* message, as are many other prefixes: an implementation that
+// silently cuts an oversized message hands the handler a message the client
+// never sent. Families:
+//
+//	trail       a string field filling exactly cut bytes, then n=7 (cut+2 bytes)
+//	rep-int32   unpacked repeated int32 elements (rn, 3 bytes each)
+//	rep-string  repeated one-character strings (rs, 4 bytes each)
+//
+// total is the approximate size wanted (>= cut+1). ok=false when no field
+// boundary can be placed at cut.
+func prefixValid(family string, cut, total int, p padder) ([]byte, bool) {
+	if cut < 0 {
+		return nil, false
+	}
+	lead := func(n int) ([]byte, bool) {
+		switch {
+		case n == 0:
+			return []byte{}, true
+		case n == 1:
+			return nil, false
+		case n == 2:
+			return []byte{0x30, 0x09}, true // l=9
+		}
+		k, ok := fitString(n)
+		if !ok {
+			return nil, false
+		}
+		b := protowire.AppendTag(nil, 1, protowire.BytesType) // a
+		return protowire.AppendString(b, p.pad(k)), true
+	}
+	if family == "trail" {
+		b, ok := lead(cut)
+		if !ok {
+			return nil, false
+		}
+		return append(b, 0x28, 0x07), true // n=7
+	}
+	var elem func(i int) []byte
+	var e int
+	switch family {
+	case "rep-int32":
+		e = 3
+		elem = func(i int) []byte { return []byte{0x88, 0x01, byte(1 + i%120)} } // rn
+	case "rep-string":
+		e = 4
+		elem = func(i int) []byte { return []byte{0x82, 0x01, 0x01, padAlphabet[i%len(padAlphabet)]} } // rs
+	default:
+		return nil, false
+	}
+	for k := cut / e; k >= 0; k-- {
+		b, ok := lead(cut - k*e)
+		if !ok {
+			continue
+		}
+		n := 0
+		for ; n < k; n++ {
+			b = append(b, elem(n)...)
+		}
+		if len(b) != cut {
+			return nil, false
+		}
+		for len(b) < total || len(b) == cut {
+			b = append(b, elem(n)...)
+			n++
+		}
+		return b, true
 	}
 	return nil, false
 }
